@@ -87,6 +87,9 @@ func (c *c09) chainStep(cs c09Case) error {
 	case "reorg":
 		tip := c.lab.CM.Tip().Height
 		depth := min(cs.Depth, int(tip-c.formedAt))
+		if cs.Back == 1 {
+			depth = int(tip-c.formedAt) + 1 // also the block that confirmed the contract's creation
+		}
 		if depth <= 0 {
 			return nil
 		}
@@ -95,20 +98,30 @@ func (c *c09) chainStep(cs c09Case) error {
 			return inconclusive("reorg: %v", err)
 		}
 		c.r.Count("reorgs", 1)
-		if after, _ := c.lab.OnChainRevisionNumber(id); after != before {
+		if _, _, ok := c.lab.Element(id); !ok {
+			what = "reorg-unconfirming-creation"
+			c.r.Count("reorgs_unconfirming_a_creation", 1)
+			c.r.Distinct(fmt.Sprintf("reorg-unconfirms-creation:%d-renewals", c.renewals))
+		} else if after, _ := c.lab.OnChainRevisionNumber(id); after != before {
 			c.r.Count("reorgs_reverting_a_confirmed_revision", 1)
 			c.r.Distinct(fmt.Sprintf("reorg-reverts:%d->%d", before, after))
 			what = "reorg-reverting-revision"
 		}
 	}
 	c.cs = c.lab.CM.TipState()
-	if err := c.lab.ContractorElementValid(id); err != nil {
+	if _, _, onChain := c.lab.Element(id); !onChain {
+		// creation un-confirmed: no element to compare
+	} else if err := c.lab.ContractorElementValid(id); err != nil {
 		// outside this property (the element is the Contractor's chain bookkeeping): observed, not judged
 		c.r.Count("contractor_element_invalid_after_"+what, 1)
 	}
 	post, err := c.snapshot()
 	if err != nil {
-		return inconclusive("post-snapshot: %v", err)
+		// readable before the chain event, and no RPC ran in between
+		c.r.Eval()
+		c.broken = true
+		c.violation("contract-lost-by-chain-event:"+what, "after a chain event the host no longer holds a contract it signed (revision and roots gone): "+err.Error(), cs, nil)
+		return nil
 	}
 	c.r.Eval()
 	detail := map[string]any{"event": what, "host_revision_before": pre.State.Revision.RevisionNumber, "host_revision_after": post.State.Revision.RevisionNumber,
@@ -121,12 +134,40 @@ func (c *c09) chainStep(cs c09Case) error {
 	} else {
 		c.r.Count("chain_events_changed_nothing", 1)
 	}
+	c.auditAll(cs)
 	if err := post.State.CheckRoots(); err != nil {
 		c.broken = true
 		c.violation("roots-vs-revision:chain:"+what, "after a chain event the host roots no longer match its revision: "+err.Error(), cs, detail)
 	}
 	c.afterChain = what
 	return nil
+}
+
+// auditAll checks, for every contract the host holds for this worker other
+// than the current one (i.e. the renewed-away ones), that its stored roots
+// still hash to the merkle root of ITS latest revision and that their count
+// matches its filesize. It returns how many it audited.
+func (c *c09) auditAll(cs c09Case) (n int) {
+	for _, id := range c.allIDs {
+		if id == c.contract.ID {
+			continue
+		}
+		hs, err := c.lab.State(id)
+		if err != nil {
+			c.violation("renewed-away-contract-lost", "the host no longer holds a contract it signed: "+err.Error(), cs, map[string]any{"contract": id})
+			continue
+		}
+		n++
+		if err := hs.CheckRoots(); err != nil {
+			c.broken = true
+			c.violation("roots-vs-revision:renewed-away:"+cs.Kind, "after a "+cs.Kind+" on the renewal, the renewed-away contract's stored roots no longer match its own latest revision: "+err.Error(), cs,
+				map[string]any{"contract": id, "roots": shortRoots(hs.Roots), "revision_number": hs.Revision.RevisionNumber})
+		}
+		if !hs.Renewed {
+			c.violation("renewed-away-contract-changed", "a renewed-away contract is no longer marked renewed", cs, map[string]any{"contract": id})
+		}
+	}
+	return
 }
 
 // renewal renews or refreshes the contract through the honest client. The
@@ -223,6 +264,7 @@ func (c *c09) renewal(cs c09Case) error {
 		return inconclusive("mine renewal: %v", err)
 	}
 	c.contract = rhp.ContractRevision{ID: newID, Revision: succ.Revision}
+	c.allIDs = append(c.allIDs, newID)
 	c.cs = c.lab.CM.TipState()
 	c.revs, c.formedAt = nil, c.lab.CM.Tip().Height
 	c.renewals++
@@ -298,6 +340,11 @@ func c09ChainJobs(r *mon.Run) []c09Job {
 				{Kind: "free", Via: "raw", N: -1, Indices: []uint64{1, 0}, List: "full"},
 				{Kind: kinds[(j+s+2)%3], N: -1},
 				{Kind: "free", Via: "honest", N: -1, Indices: []uint64{0}, List: "all"},
+				// a longer fork reverts the block that confirmed the renewal: the host keeps
+				// both contracts as they are and goes on serving the renewal
+				{Kind: "reorg", N: -1, Back: 1},
+				{Kind: "append", Via: "honest", N: -1, Batch: []string{"new"}, List: "full"},
+				{Kind: "free", Via: "raw", N: -1, Indices: []uint64{0}},
 			}
 			seqs = append(seqs, seq)
 		}
